@@ -195,7 +195,7 @@ def minimise_sim(viol, budget_s=60):
         if not c17.owned_jobs(cfg):
             return False
         jobs = set(c17.owned_jobs(cfg))
-        cfg['faults'] = [f for f in cfg['faults'] if f['job'] in jobs or f['kind'] == 'F6start']
+        cfg['faults'] = [f for f in cfg['faults'] if f['job'] in jobs or f['kind'] == 'F6start' or f['job'] == 'neutral']
         d = fails(cfg, [], tries, tag)
         if d is not None:
             best['cfg'], best['decisions'] = cfg, d
